@@ -316,3 +316,24 @@ def run(repo: Repo, rep: Report, tier: str) -> None:
                   "every path passes a rebuild" if not stale else
                   f"a path from `{names[0]}` reaches `_plan_connections` with the grid of an earlier stage (a callee that returns early does not count): relay poles are then "
                   "placed on tiles that the optimised entities occupy", pl7.loc(s))
+
+    # ---------------- R8 ---------------------------------------------------------------
+    rep.rule("C08-R8", "a relay pole is booked where it stands: in every function that both registers a relay node (add_relay_node(position, id, ...)) and creates its placement "
+             "(create_and_add_placement(ir_node_id=id, position=...)), the two positions are the same expression — reach checks and relay reuse measure from the registered point, "
+             "the wire is attached to the placed pole")
+    n8 = 0
+    for f8 in repo.all_funcs():
+        regs = [c for c in calls_in(f8.node, "add_relay_node") if len(c.args) >= 2]
+        plcs = [c for c in calls_in(f8.node, "create_and_add_placement") if kwarg(c, "position") is not None and kwarg(c, "ir_node_id") is not None]
+        if not regs or not plcs:
+            continue
+        c8 = canon(f8)
+        for r8 in regs:
+            for p8 in plcs:
+                if c8.text(r8.args[1]) != c8.text(kwarg(p8, "ir_node_id")):
+                    continue
+                n8 += 1
+                a8, b8 = c8.text(r8.args[0]), c8.text(kwarg(p8, "position"))
+                rep.check(a8 == b8, "C08-R8", f"{f8.short}: relay node and placement share one position", a8[:80] if a8 == b8 else
+                          f"node registered at `{a8[:60]}`, pole placed at `{b8[:60]}`: hops are measured from a point up to several tiles away from the pole and can exceed the wire reach", f8.loc(r8))
+    rep.floor("C08-R8", "relay registration/placement pairs", n8, 1)
